@@ -24,10 +24,20 @@ pub type GroupSecretId = [u8; 32];
 pub type XAeadNonce = [u8; 24];
 pub struct LongTermKeyBundle { pub b: u8 }
 pub struct EncryptionDirectMessage { pub d: u8 }
-pub struct GroupAction<ID, C> { pub g: Ghost<Option<(ID, C)>>, pub create: bool }
-impl<ID, C> GroupAction<ID, C> {
-    pub fn is_create(&self) -> (r: bool) { self.create }
+// p2panda_auth::group::GroupAction: the five variants, contents opaque
+pub enum GroupAction<ID, C> {
+    Create { g: Ghost<Option<(ID, C)>> },
+    Add { g: Ghost<Option<(ID, C)>> },
+    Remove { g: Ghost<Option<(ID, C)>> },
+    Promote { g: Ghost<Option<(ID, C)>> },
+    Demote { g: Ghost<Option<(ID, C)>> },
 }
+impl<ID, C> GroupAction<ID, C> {
+    pub fn is_create(&self) -> (r: bool) ensures r == (self is Create) { matches!(self, GroupAction::Create { .. }) }
+}
+// access-level changes are not implemented in p2panda-spaces: the event constructors behind Group::process and
+// Space::handle_membership_message hit `unimplemented!()` for them (p2panda-spaces/src/event.rs)
+pub open spec fn supported_action<ID, C>(a: GroupAction<ID, C>) -> bool { !(a is Promote) && !(a is Demote) }
 pub trait Provenance<A> { fn author(&self) -> A; }
 pub trait Digest<ID> { fn hash(&self) -> ID; }
 #[verifier::external_body]
@@ -55,14 +65,18 @@ impl<S, F, C> IdentityManager<S, F, C> {
 pub struct Group<S, F, C, RS> { pub g: Ghost<Option<(S, F, C, RS)>> }
 impl<S, F: Forge<C>, C: Conditions, RS: AuthResolver<C>> Group<S, F, C, RS> {
     #[verifier::external_body]
-    pub fn process(manager: Manager<S, F, C, RS>, message: &AuthMessage<C>) -> (r: Result<Option<(AuthGroupState<C>, Event<C>)>, GroupError<F, C, RS>>) { unimplemented!() }
+    pub fn process(manager: Manager<S, F, C, RS>, message: &AuthMessage<C>) -> (r: Result<Option<(AuthGroupState<C>, Event<C>)>, GroupError<F, C, RS>>)
+        requires supported_action(message.action)   // panics otherwise (auth_message_to_group_event: unimplemented!())
+    { unimplemented!() }
 }
 pub struct Space<S, F, C, RS> { pub g: Ghost<Option<(S, F, C, RS)>> }
 impl<S, F: Forge<C>, C: Conditions, RS: AuthResolver<C>> Space<S, F, C, RS> {
     #[verifier::external_body]
     pub fn new(manager: Manager<S, F, C, RS>, id: Hash) -> (r: Self) { unimplemented!() }
     #[verifier::external_body]
-    pub fn handle_membership_message(&self, message: &SpaceMembershipMessage, auth_message: &AuthMessage<C>) -> (r: Result<Option<(SpacesState<C>, Vec<Event<C>>)>, SpaceError<F, C, RS>>) { unimplemented!() }
+    pub fn handle_membership_message(&self, message: &SpaceMembershipMessage, auth_message: &AuthMessage<C>) -> (r: Result<Option<(SpacesState<C>, Vec<Event<C>>)>, SpaceError<F, C, RS>>)
+        requires supported_action(auth_message.action)   // panics otherwise (space_message_to_space_event: unimplemented!())
+    { unimplemented!() }
     #[verifier::external_body]
     pub fn handle_application_message(&self, message: &ApplicationMessage) -> (r: Result<Option<(SpacesState<C>, Vec<Event<C>>)>, SpaceError<F, C, RS>>) { unimplemented!() }
 }
